@@ -448,7 +448,10 @@ class AddressCell(collections.namedtuple(
 
     @property
     def abs_coordinate(self):
-        return f'${self.column}${self.row}'
+        # the row or column of an unbounded range (A:A, 1:1) is 0
+        column = f'${self.column}' if self.col_idx else ''
+        row = f'${self.row}' if self.row else ''
+        return f'{column}{row}'
 
     def address_at_offset(self, row_inc=0, col_inc=0):
         """ Construct an `AddressCell` offset from the address
